@@ -47,6 +47,10 @@ type PluginConf struct {
 	ExitDelayMs int               `json:"exit_delay_ms,omitempty"`
 	InitDelayMs int               `json:"init_delay_ms,omitempty"`
 	Impostor    string            `json:"impostor,omitempty"` // hand-made AutoMTLS plugin, see cmd/vplugin/impostor.go
+	// the plugin's gRPC controller answers Shutdown with its Empty reply and stops the server 100 ms later (what the
+	// protocol's "rpc Shutdown(Empty) returns (Empty)" describes; go-plugin's own server stops inside the handler,
+	// so its host never sees the reply)
+	AckShutdown bool `json:"ack_shutdown,omitempty"`
 }
 
 // HostConf is the client side of a cell.
@@ -69,6 +73,10 @@ type HostConf struct {
 	MaxPort        uint     `json:"max_port,omitempty"`
 	CertPEM        string   `json:"cert_pem,omitempty"` // static TLS: trust this server certificate
 	KeyPEM         string   `json:"key_pem,omitempty"`
+	// a certificate that the machine's trust store lists (SSL_CERT_FILE of the host process and of the plugins
+	// it launches) although it is neither side's AutoMTLS certificate; intruder class tls-systrusted presents it
+	SysTrustCert string `json:"sys_trust_cert,omitempty"`
+	SysTrustKey  string `json:"sys_trust_key,omitempty"`
 }
 
 // Cell is one unit of E3 work, executed by the host helper process.
@@ -168,8 +176,12 @@ var lastRunnerPid atomic.Int64
 
 func (r *procRunner) Wait(context.Context) error { return r.cmd.Wait() }
 func (r *procRunner) Kill(ctx context.Context) error {
-	if err := ctx.Err(); err != nil { // a runner that honours the context it is given
-		return err
+	// a runner that honours the context it is given, and whose kill is a round trip to something external
+	// (like a container runtime's kill command): 30 ms during which the context can end
+	select {
+	case <-ctx.Done():
+		return ctx.Err()
+	case <-time.After(30 * time.Millisecond):
 	}
 	if r.cmd.Process != nil {
 		if err := r.cmd.Process.Kill(); err != nil && !errors.Is(err, os.ErrProcessDone) {
@@ -262,6 +274,11 @@ func RunCell(c *Cell) (res *Result) {
 	}()
 	pluginDir := filepath.Join(c.Dir, "plugin-sockets")
 	os.MkdirAll(pluginDir, 0o755)
+	if c.Host.SysTrustCert != "" {
+		if kp, err := tls.X509KeyPair([]byte(c.Host.SysTrustCert), []byte(c.Host.SysTrustKey)); err == nil {
+			sysTrusted = &kp
+		}
+	}
 	hostTmp := os.Getenv("TMPDIR")
 	so, se := &lockedBuf{}, &lockedBuf{}
 	plog := &lockedBuf{}
@@ -278,6 +295,9 @@ func RunCell(c *Cell) (res *Result) {
 			cmd = exec.Command(c.VPlugin)
 			pc, _ := json.Marshal(c.Plugin)
 			cmd.Env = append(cmd.Env, "VP_CONF="+string(pc), "TMPDIR="+pluginDir, "PATH="+os.Getenv("PATH"))
+			if f := os.Getenv("SSL_CERT_FILE"); f != "" {
+				cmd.Env = append(cmd.Env, "SSL_CERT_FILE="+f) // the plugin shares the machine's trust store
+			}
 		}
 		return cmd
 	}
@@ -436,7 +456,14 @@ func RunCell(c *Cell) (res *Result) {
 			protos[cur()] = p
 			record(op, t0, err, "")
 		case "dispense":
-			if protos[cur()] == nil {
+			di := cur() // "dispense:[name][@i]": on client i instead of the newest one
+			if v, at, ok := strings.Cut(arg, "@"); ok {
+				arg = v
+				if j, e := strconv.Atoi(at); e == nil && j < len(protos) {
+					di = j
+				}
+			}
+			if protos[di] == nil {
 				record(op, t0, errors.New("no protocol client"), "")
 				break
 			}
@@ -444,13 +471,13 @@ func RunCell(c *Cell) (res *Result) {
 			if arg != "" {
 				n = arg
 			}
-			raw, err := protos[cur()].Dispense(n)
+			raw, err := protos[di].Dispense(n)
 			if err == nil {
 				st, ok := raw.(kv.Store)
 				if !ok {
 					err = fmt.Errorf("dispensed %T", raw)
 				}
-				stores[cur()] = st
+				stores[di] = st
 			}
 			record(op, t0, err, "")
 		case "set", "get", "callback", "revcallback", "orphan", "big", "print", "printpat":
@@ -548,6 +575,19 @@ func RunCell(c *Cell) (res *Result) {
 			} else {
 				record(op, t0, nil, "exited")
 			}
+		case "exitedin": // how long (ms, up to 30 s) until client arg reports the plugin as exited
+			i, _ := strconv.Atoi(arg)
+			ok := false
+			for k := 0; k < 1500 && !ok; k++ {
+				if ok = clients[i].Exited(); !ok {
+					time.Sleep(20 * time.Millisecond)
+				}
+			}
+			if !ok {
+				record(op, t0, errors.New("client does not report the plugin as exited 30 s after it died"), "")
+			} else {
+				record(op, t0, nil, "exited")
+			}
 		case "killconc": // arg concurrent Kill calls on the current client; a panic in any of them is reported
 			n, _ := strconv.Atoi(arg)
 			if n < 2 {
@@ -626,6 +666,9 @@ func RunCell(c *Cell) (res *Result) {
 			cmd := exec.Command(c.VPlugin)
 			pc, _ := json.Marshal(pcopy)
 			cmd.Env = append(cmd.Env, "VP_CONF="+string(pc), "TMPDIR="+pluginDir, "PATH="+os.Getenv("PATH"))
+			if f := os.Getenv("SSL_CERT_FILE"); f != "" {
+				cmd.Env = append(cmd.Env, "SSL_CERT_FILE="+f) // the plugin shares the machine's trust store
+			}
 			lastCmd = cmd
 			cfg := mkConfig()
 			cfg.Cmd = cmd
@@ -773,6 +816,18 @@ func RunCell(c *Cell) (res *Result) {
 				}
 			}
 			record(op, t0, nil, fmt.Sprintf("answered=%d targets=%d %s", answered, len(targets), strings.Join(where, ",")))
+		case "systrust?": // control: does this process's system trust store really list the cell's certificate?
+			v := "not-listed"
+			if sysTrusted != nil {
+				if leaf, err := x509.ParseCertificate(sysTrusted.Certificate[0]); err == nil {
+					if pool, err := x509.SystemCertPool(); err == nil && pool != nil {
+						if _, err := leaf.Verify(x509.VerifyOptions{Roots: pool, KeyUsages: []x509.ExtKeyUsage{x509.ExtKeyUsageClientAuth}}); err == nil {
+							v = "listed"
+						}
+					}
+				}
+			}
+			record(op, t0, nil, v)
 		case "sleep":
 			ms, _ := strconv.Atoi(arg)
 			time.Sleep(time.Duration(ms) * time.Millisecond)
@@ -890,6 +945,21 @@ func pluginGoroutines() []string {
 	var out []string
 	for _, blk := range strings.Split(buf.String(), "\n\n") {
 		if !strings.Contains(blk, "hashicorp/go-plugin.") && !strings.Contains(blk, "go-plugin/internal/") {
+			// goroutines of gRPC connections and servers: in the host helper gRPC is only ever used through go-plugin
+			// (Client.Client, the broker's Dial / AcceptAndServe), so one that is left was started for a killed client
+			if strings.Contains(blk, "google.golang.org/grpc") {
+				var fr []string
+				for _, l := range strings.Split(blk, "\n") {
+					if f := strings.Fields(l); strings.HasPrefix(l, "#\t") && len(f) >= 3 && strings.Contains(f[2], "google.golang.org/grpc") && len(fr) < 3 {
+						fn := f[2]
+						if k := strings.LastIndexByte(fn, '+'); k > 0 {
+							fn = fn[:k]
+						}
+						fr = append(fr, fn[strings.LastIndexByte(fn, '/')+1:])
+					}
+				}
+				out = append(out, "(gRPC) "+strings.Join(fr, " < "))
+			}
 			continue
 		}
 		var fr []string
